@@ -99,6 +99,11 @@ var rejections = []rejection{
 	{"frequencies.txt", "bad-start_time", map[string]string{"start_time": "noon"}, 1},
 	{"frequencies.txt", "blank-end_time", map[string]string{"end_time": ""}, 1},
 	{"frequencies.txt", "bad-end_time", map[string]string{"end_time": "12h30"}, 1},
+	// the shape HH:MM:SS with something else than digits in it
+	{"frequencies.txt", "bad-start_time-of-the-right-shape", map[string]string{"start_time": "0x:00:00"}, 1},
+	{"frequencies.txt", "bad-end_time-of-the-right-shape", map[string]string{"end_time": "10:00:.5"}, 1},
+	{"frequencies.txt", "bad-end_time-with-a-letter-O", map[string]string{"end_time": "1O:30:00"}, 1},
+	{"frequencies.txt", "bad-start_time-with-a-sign", map[string]string{"start_time": "-1:00:00"}, 1},
 	{"frequencies.txt", "bad-headway_secs", map[string]string{"headway_secs": "ten"}, 1},
 	{"frequencies.txt", "blank-headway_secs", map[string]string{"headway_secs": ""}, 1},
 	{"stop_times.txt", "blank-trip_id", map[string]string{"trip_id": ""}, 1},
